@@ -129,6 +129,24 @@ def stepOp (probes : List Bytes) (st : St) (op : String) : St × String :=
     match h.toNat? with
     | some n => request probes st (.next n)
     | none => (st, "bad-op")
+  -- `Iterator::nth(k)` (the default method): `next()` k times, stopping at the first `None`, then `next()` once more;
+  -- the skipped bundles are assembled (their files are read) and dropped
+  | ["nth", h, k] =>
+    match h.toNat?, k.toNat? with
+    | some n, some k =>
+      if k > 8 then (st, "bad-op") else
+      let rec go (fuel : Nat) (st : St) (opens : List String) : St × String :=
+        let (st', o) := request probes st (.next n)
+        let parts := o.splitOn "|opens="
+        let res := parts.headD ""
+        let ops := ((parts.getD 1 "").splitOn ",").filter (· != "")
+        match fuel with
+        | 0 => (st', res ++ "|opens=" ++ ",".intercalate (opens ++ ops))
+        | f + 1 =>
+          if res == "end" || res == "no-such-iter" then (st', res ++ "|opens=" ++ ",".intercalate (opens ++ ops))
+          else go f st' (opens ++ ops)
+      go k st []
+    | _, _ => (st, "bad-op")
   | _ => (st, "bad-op")
 
 def run (payload : String) : String :=
